@@ -248,6 +248,9 @@ def run_combine(rep):
         obs = [("subset", "requires", "unknown", f"outside the supported subset: {o}")]
     for suffix, kind, status, detail in obs:
         oid = f"{fq}::kron:{suffix}"
+        if status == "unknown":
+            rep.not_covered(fq, ast.get_source_segment(src, fn) or "", f"combine pairing: {detail}")
+            continue
         rep.add_ob(Obligation(oid, fq, kind, "pyvc", status, 0.0, detail))
         if status == "failed":
             rep.violation(f"{fq} breaks the accumulator / member-order pairing ({suffix}): {detail}", key=f"P:{oid}",
@@ -256,3 +259,48 @@ def run_combine(rep):
             rep.undecided.append(f"{oid}: {detail}")
     rep.assume("combine: a product space's tensor ranges over its state_objs, an envelope's over its members in index order, an own state over itself "
                "(the representation invariants checked by C07 / C13 and re-established by the tensor contracts)")
+
+
+def run_envelope_combine(rep):
+    """Envelope.combine: `self.state = kron(self.<a>.state, self.<b>.state)` is followed, in the same block, by `self.<a>.extract(0)` and
+    `self.<b>.extract(1)` - the member indices name the positions the Kronecker product gave the members."""
+    from vf.common import Obligation
+    from . import dataflow as D
+    rel, q = "photon_weave/state/envelope.py", "Envelope.combine"
+    fq = f"{rel}::{q}"
+    try:
+        tree, src = D.parse(rel)
+        fn = dict(D.functions(tree))[q]
+    except Exception as ex:
+        rep.undecided.append(f"{fq}: {ex}")
+        return
+    rep.add_function(fq, rel, ast.get_source_segment(src, fn) or "", "P (Kronecker operand order / member index pairing)")
+    me = fn.args.args[0].arg
+    sites = []
+    for block in D._blocks(fn):
+        for i, s in enumerate(block):
+            if isinstance(s, ast.Assign) and len(s.targets) == 1 and ast.unparse(s.targets[0]) == f"{me}.state" and isinstance(s.value, ast.Call) \
+                    and ast.unparse(s.value.func) in ("jnp.kron", "np.kron") and len(s.value.args) == 2:
+                ops = [ast.unparse(a) for a in s.value.args]
+                mem = []
+                for o in ops:
+                    parts = o.split(".")
+                    mem.append(parts[1] if len(parts) == 3 and parts[0] == me and parts[2] == "state" else None)
+                ext = {}
+                for t in block[i + 1:]:
+                    if isinstance(t, ast.Expr) and isinstance(t.value, ast.Call) and isinstance(t.value.func, ast.Attribute) and t.value.func.attr == "extract" \
+                            and len(t.value.args) == 1 and isinstance(t.value.args[0], ast.Constant):
+                        recv = ast.unparse(t.value.func.value).split(".")
+                        if len(recv) == 2 and recv[0] == me:
+                            ext[recv[1]] = t.value.args[0].value
+                ok = None not in mem and set(mem) == {"fock", "polarization"} and ext.get(mem[0]) == 0 and ext.get(mem[1]) == 1
+                sites.append((s.lineno, ok, f"kron({ops[0]}, {ops[1]}) with extract indices {ext}"))
+    if not sites:
+        rep.not_covered(fq, ast.get_source_segment(src, fn) or "", "no `self.state = kron(...)` site found")
+        return
+    for k, (line, ok, detail) in enumerate(sites):
+        oid = f"{fq}::kron#{k}:member-indices-name-the-kronecker-positions"
+        rep.add_ob(Obligation(oid, fq, "ensures", "pyvc", "discharged" if ok else "failed", 0.0, f"line {line}: {detail}"))
+        if not ok:
+            rep.violation(f"{fq} line {line}: the member indices do not name the positions of the Kronecker factors: {detail}", key=f"P:{oid}",
+                          replay={"kind": "obligation", "function": fq, "failed_obligations": [oid], "solver_output": [detail]}, no_input=True)
